@@ -360,10 +360,10 @@ def run(ctx, prj: Project):
                    "item not consumed", floor=1)
     explored = None
     try:
-        plan = [(2, False), (3, True)] if ctx.tier != "thorough" else [(2, False), (3, False)]
+        plan = [(2, False), (3, True)] if ctx.tier != "thorough" else [(2, False), (3, False), (4, True)]
         div = None
         for n, no_dead in plan:
-            count, div = findall_model.explore(prj, n, no_dead=no_dead)
+            count, div = findall_model.explore(prj, n, no_dead=no_dead, limit=100000)
             explored = (n, count)
             if div is not None:
                 break
